@@ -328,9 +328,9 @@ fn plan(rng: &mut Rng, idx: u64, thorough: bool) -> Plan {
         }
     }
     if other_level {
-        ops.truncate(3);
-        ops.push(Op::Reopen { lvl: 1 });
-        ops.push(Op::Retrieve { id: 1, p: t.cur.unwrap_or(1) });
+        let p = *rng.pick(&[1u64, 2, 3, 6]);
+        ops = vec![Op::Init { p }, Op::Store { id: 1, sd: 1, p }, Op::Retrieve { id: 1, p }, Op::Reopen { lvl: 1 },
+                   Op::Retrieve { id: 1, p }, Op::Retrieve { id: 1, p: 5 }, Op::Store { id: 3, sd: 2, p }, Op::Reopen { lvl: 0 }, Op::Retrieve { id: 1, p }];
         kind = "other-level".into();
     }
     // crash inside one of the file updates (about half of the histories)
